@@ -104,7 +104,7 @@ impl Check for C07 {
         "C07"
     }
     fn plan(&self, tier: Tier) -> Plan {
-        let mut p = Plan::new(tier.pick(60_000, 2_000_000), tier.pick(30.0, 480.0));
+        let mut p = Plan::new(tier.pick(360_000, 36_000_000), tier.pick(30.0, 420.0));
         p.mandatory = 1;
         p.cpu_budget_s = 120.0;
         p
